@@ -92,8 +92,11 @@ func (s *EVMSource) Seal(rng *rand.Rand, n int) error {
 			parent = h
 			s.Heights = append(s.Heights, h.Number)
 		}
-	case "bsc":
+	case "bsc", "hsc":
 		f := es.Bsc
+		if s.Kind == "hsc" {
+			f = es.Hsc
+		}
 		v := 1 + rng.Intn(4)
 		c, gen := es.NewPoSAChain(rng, f, evmSealChainID, 1+rng.Intn(v), v, v, 6000000)
 		s.Spec.Router = f.Router
@@ -102,16 +105,16 @@ func (s *EVMSource) Seal(rng *rand.Rand, n int) error {
 			return err
 		}
 		if rec := ee.SyncGenesis(s.Spec.ID, gen); !rec.Ok {
-			return fmt.Errorf("bsc genesis: %s", rec.Err)
+			return fmt.Errorf("%s genesis: %s", s.Kind, rec.Err)
 		}
 		parent := c.M.Root
 		for i := 0; i < n; i++ {
 			h := c.Next(rng, parent, es.HonestOpt{Root: &root})
 			if h == nil {
-				return fmt.Errorf("bsc: no eligible sealer at header %d", i)
+				return fmt.Errorf("%s: no eligible sealer at header %d", s.Kind, i)
 			}
 			if rec := ee.SyncHeaders(s.Spec.ID, h.JSON()); !rec.Ok {
-				return fmt.Errorf("bsc header %d: %s", i, rec.Err)
+				return fmt.Errorf("%s header %d: %s", s.Kind, i, rec.Err)
 			}
 			parent = c.M.Add(parent, h)
 			s.Heights = append(s.Heights, h.Number)
